@@ -323,8 +323,11 @@ impl Envelope {
 
                 let signature_metadata_envelope = signature_object_subject.unwrap_envelope().unwrap();
                 if let Ok(signature) = signature_metadata_envelope.extract_subject::<Signature>() {
-                    let signing_target = self.subject();
-                    if !signing_target.is_signature_from_key(&signature, key) {
+                    // `is_signature_from_key` already verifies against the
+                    // subject's digest, which is what was signed; going through
+                    // `self.subject()` first would look one level too deep when
+                    // the subject is itself a node.
+                    if !self.is_signature_from_key(&signature, key) {
                         return Some(Err(anyhow::anyhow!("Inner signature not made with same key as outer signature.")));
                     }
                     Some(Ok(Some(signature_metadata_envelope)))
